@@ -34,7 +34,7 @@ def case_key(case):
     return ("m", case["markup"], tuple(case.get("steps") or ())) if "markup" in case else ("t", case["text"])
 
 
-DEFAULT_JOBS = {"C04": 4, "C12": 4}  # the two properties that run the slow reference tokenizer
+DEFAULT_JOBS = {"C04": 6, "C12": 6}  # the two properties that run the slow reference tokenizer
 _WORK = None
 
 
